@@ -53,7 +53,7 @@ func c26FormatFixes(format string) (sec, micro, zone bool) {
 func TestVerifC26(t *testing.T) {
 	r := vmon.Begin(t, "C26", "exploration")
 	rng := r.Rand("c26")
-	zones := []*time.Location{time.Local, time.UTC, time.FixedZone("a", 5*3600+1800), time.FixedZone("b", -(3*3600 + 1800)), time.FixedZone("c", 12*3600+45*60), time.FixedZone("d", -11*3600)}
+	zones := []*time.Location{time.Local, time.UTC, time.FixedZone("a", 5*3600+1800), time.FixedZone("b", -(3*3600 + 1800)), time.FixedZone("c", 12*3600+45*60), time.FixedZone("d", -11*3600), time.FixedZone("e", -30*60), time.FixedZone("f", -59*60), time.FixedZone("g", -60), time.FixedZone("h", 59*60), time.FixedZone("i", -(1*3600+1*60)), time.FixedZone("j", 14*3600)}
 	r.SetAdd("process_tz", time.Local.String())
 	n := r.N(20000, 1000000)
 	for i := 0; i < n; i++ {
